@@ -211,4 +211,31 @@ def merge (N : Nat) (caches : List (Nat → Option V)) : Except String (Nat → 
     | .error e => .error e
 end merge
 
+/-! ## whole methods composed from the pieces above (one spectrum entry): what `c17.pp1`, `c17.mixfull`, `c17.mixptfull` run -/
+
+/-- `Cache1D.integrate_point_pos`: the continuous part is the model's own `integrate1D` over the cached row `sp`
+    (the first `n` entries of `sp` belong to the negative gammas `x`) -/
+def integratePointPos1D (ext : Bool) (theta : Rat) (computed : Rat → Option Rat) (pposL gposL gs sp : List Rat)
+    (n : Nat) (x w : Nat → Rat) (neu : Rat) (wt : Reg → Rat) : Except String (Rat × List Rat × List Rat) :=
+  pointPos1D theta computed pposL gposL gs sp
+    (integrate1D ext (pp1_thetaArg theta) n x w (fun i => sp.getD i 0) neu wt)
+
+/-- `DFE.mixture` with both components computed by the model (the wiring of the parameter vector is `mix_wiring`) -/
+def mixtureEntry (ext : Bool) (theta p2d : Rat) (n1 : Nat) (x1 w1 S1 : Nat → Rat) (neu : Rat) (wt : Reg → Rat)
+    (sym : Bool) (n2 : Nat) (x2 : Nat → Rat) (w2 S2 : Nat → Nat → Rat) (wv : Reg → Reg → Nat → Rat) (C : Reg → Reg → Rat) : Rat :=
+  mix_combine p2d (integrate1D ext theta n1 x1 w1 S1 neu wt) (integrate2D ext sym theta n2 x2 w2 S2 wv C)
+
+/-- `DFE.mixture_point_pos` (`symm = false`) / `DFE.mixture_symmetric_point_pos` (`symm = true`): the 1-D component is
+    `integrate_point_pos` with one point mass (ppos, gpos), exterior integration and no demo function, the 2-D component
+    `integrate_point_pos` with (p1, i1, p2, i2, rho) as delivered by `mixpt_wiring` / `mixsym_wiring` + `sppWire` -/
+def mixturePointEntry (symm : Bool) (sqrt : Rat → Rat) (theta p2d : Rat) (ppos gpos : Rat) (gs1 sp1 : List Rat)
+    (n1 : Nat) (x1 w1 : Nat → Rat) (neu : Rat) (wt : Reg → Rat)
+    (sym : Bool) (rho : Rat) (n2 : Nat) (x2 : Nat → Rat) (w2 S2 : Nat → Nat → Rat) (wv : Reg → Reg → Nat → Rat) (C : Reg → Reg → Rat)
+    (i1 i2 : Nat) (p1 p2 : Rat) : Except String Rat :=
+  match integratePointPos1D true theta (fun _ => none) [ppos] [gpos] gs1 sp1 n1 x1 w1 neu wt with
+  | .error e => .error e
+  | .ok (fs1, _, _) =>
+      let fs2 := integratePointPos2D sqrt sym theta rho n2 x2 w2 S2 wv C i1 i2 p1 p2
+      .ok (if symm then mixsym_combine p2d fs1 fs2 else mixpt_combine p2d fs1 fs2)
+
 end DadiVerif.DFE
